@@ -399,6 +399,14 @@ fn gen_kdb_forest(rng: &mut Rng, dup_names: bool) -> (Vec<KGroup>, Vec<KEntry>) 
         }
         groups.push(KGroup { gid: 100 + i as u32 * 7, name, level });
     }
+    if rng.chance(1, 3) {
+        // a group id is any 32-bit number: the smallest, the largest (KeePass 1 never hands it out, a file may hold it), the sign bit
+        const EDGE: [u32; 8] = [0xffff_ffff, 0, 0x8000_0000, 0xffff_fffe, 1, 0x7fff_ffff, 0xdead_beef, 0x0100_0000];
+        let off = rng.below(8) as usize;
+        for (i, g) in groups.iter_mut().enumerate() {
+            g.gid = EDGE[(off + i) % 8];
+        }
+    }
     let ne = rng.below(6) as usize;
     let mut entries = Vec::new();
     for _ in 0..ne {
@@ -552,6 +560,26 @@ pub fn run_wf(ctx: &mut Ctx) {
             if rng.chance(1, 3) {
                 order.insert(rng.below(order.len() as u64) as usize, 1);
                 comments.push(rng.bytes_below(9));
+            }
+            if i % 100 == 14 {
+                // a payload of more than 1 MiB that is not compressed, as one hashed block (a writer may cut the stream wherever it
+                // likes; KeePass cuts at 1 MiB, others write a single block) and as blocks of 1 MiB + 1: too large for the
+                // executable model, judged by the specification alone (the file opens, to the stored XML)
+                s.compress = false;
+                let at = s.xml.windows(14).rposition(|w| w == b"</KeePassFile>").unwrap_or(s.xml.len());
+                let pad = format!("<!-- {} -->\n", hex::encode(rng.bytes(700_000)));
+                s.xml.splice(at..at, pad.into_bytes());
+                for blocks in [vec![], vec![(1usize << 20) + 1], vec![1 << 20]] {
+                    let data = build_kdbx3(&s, &order, &comments, &blocks, &comp);
+                    let real = observe_kdbx3(&data, &key);
+                    ctx.emit(json!({
+                        "op": "specOnly", "sub": "kdbx3-large-block",
+                        "extra": {"intended": {"xml_sha256": hex::encode(kdbx::sha256(&[&s.xml]))}, "blocks": blocks, "payload_len": s.xml.len()},
+                        "tags": ["format:kdbx3", "blocks:larger-than-1MiB"], "nontrivial": true,
+                        "real": real,
+                    }));
+                }
+                continue;
             }
             let nb = rng.below(4) as usize;
             let blocks: Vec<usize> = (0..nb).map(|_| *rng.pick(&[1usize, 7, 64, 500])).collect();
